@@ -4,6 +4,7 @@
 
 mod bump;
 mod pool;
+mod strlib;
 
 use std::env;
 use std::process::ExitCode;
@@ -21,6 +22,7 @@ fn main() -> ExitCode {
         }
         "bump" => bump::run(&args[2], &args[3]),
         "pool" => pool::run(&args[2], &args[3]),
+        "strlib" => strlib::run(&args[2], &args[3]),
         other => {
             eprintln!("unknown mode {other}");
             ExitCode::from(2)
